@@ -40,6 +40,7 @@ def run(repo, res, tier):
     res.stat("evaluations", 1114112 * n, add=False)
     guard_info = lexrules.rule_i2(repo, res)
     lexrules.rule_i3(repo, res, guard_info)
+    lexrules.rule_lookahead(repo, res)
     common.lexer_yield_rule(repo, res)
     an = parserules.analyse(repo)
     t2 = parserules.add_rule(res, an, "T2")
